@@ -34,7 +34,7 @@ PROP = Property(
                    "ares_buf_tag_length", "ares_buf_set_length", "ares_buf_set_position", "ares_buf_get_position",
                    "ares_buf_is_const", "ares_buf_append_finish",
                    # read side: the hand model is proved equal to these (Dsa/Buf_gen_agree.v)
-                   "ares_buf_fetch_be16", "ares_buf_peek_byte", "ares_buf_fetch_bytes",
+                   "ares_buf_fetch_be16", "ares_buf_fetch_be32", "ares_buf_peek_byte", "ares_buf_fetch_bytes",
                    # containers (Dsa/Dsa_gen_agree.v)
                    "ares_array_set_size", "ares_array_remove_last", "ares_array_len", "ares_slist_max_level",
                    "ares_slist_len", "ares_llist_len", "ares_htable_num_keys"],
